@@ -40,7 +40,7 @@ def replay(rec, repo, seed):
 PROP = Prop(
     'C06', 'The saved grammar is the relative-frequency model of the segmentation',
     functions=[tio.CP + ':calculate_probabilities', tio.SP + ':calculate_and_save_counter', tio.SP + ':save_indexed_counters',
-               tr.RT + ':run_trainer', td.BS + ':base_structure_creation'],
+               tr.RT + ':run_trainer', td.BS + ':base_structure_creation', td.PP + '._update_counter_len_indexed'],
     lemmas=lemmas,
     setup=install,
     level='other',
